@@ -5,6 +5,9 @@
 //!   pos <init> <n> <bits> <off>          -> (pos, begin, index_by_term, index_by_term_count, index_by_position)
 //!   hdr <init> <n> <bits> <off> <len>    -> Header::position of a frame (term id init+n wrapped)
 //!   rot <init> <n> <o0> <o1> <o2>        -> rotate_log on consistent meta data with tail offsets o0..o2 -> (t0,t1,t2,count)
+//!   ppos <init> <n0> <bits> <off0>       -> position() of a shared and of an exclusive publication created on a log handed
+//!                                           over at (n0, off0); off0 may exceed the term length for the shared one (tail overshot)
+//!   xpub <init> <n0> <bits> <off0> <len> -> like pub, through an ExclusivePublication
 //!   pub <init> <n0> <bits> <off0> <len>  -> a real Publication offer on an in-memory log handed over at (n0, off0):
 //!                                           (offer result, publication position afterwards, active term count, raw tails)
 use aeron_rs::concurrent::atomic_buffer::{AlignedBuffer, AtomicBuffer};
@@ -128,6 +131,83 @@ fn case_pub(a: &[i64]) -> String {
     s
 }
 
+fn case_ppos(a: &[i64]) -> String {
+    let (init, n0, bits, off0) = (a[0] as i32, a[1] as i32, a[2] as i32, a[3] as i32);
+    let tl: i32 = 1 << bits;
+    let client = TestClient::new();
+    let log = TestLog::new(tl, 1408.min(tl / 2), init, n0, off0, 11, 22);
+    let limit = UnsafeBufferPosition::new(client.counter_values_buffer(), 1);
+    limit.set(i64::MAX);
+    let publication = Publication::new(
+        client.conductor.clone(),
+        CString::new("aeron:ipc").unwrap(),
+        7,
+        7,
+        22,
+        11,
+        limit,
+        -1,
+        log.log_buffers.clone(),
+    );
+    let p = catch(|| publication.position());
+    publication.close();
+    if off0 > tl {
+        return format!("({}, Skipped)", fmt_result(p));
+    }
+    let limit2 = UnsafeBufferPosition::new(client.counter_values_buffer(), 2);
+    limit2.set(i64::MAX);
+    let xp = catch(|| {
+        let x = aeron_rs::exclusive_publication::ExclusivePublication::new(
+            client.conductor.clone(),
+            CString::new("aeron:ipc").unwrap(),
+            7,
+            22,
+            11,
+            limit2,
+            -1,
+            log.log_buffers.clone(),
+        );
+        let r = x.position();
+        x.close();
+        r
+    });
+    format!("({}, {})", fmt_result(p), fmt_result(xp))
+}
+
+fn case_xpub(a: &[i64]) -> String {
+    let (init, n0, bits, off0, len) = (a[0] as i32, a[1] as i32, a[2] as i32, a[3] as i32, a[4] as i32);
+    let tl: i32 = 1 << bits;
+    let client = TestClient::new();
+    let log = TestLog::new(tl, 1408.min(tl / 2), init, n0, off0, 11, 22);
+    let limit = UnsafeBufferPosition::new(client.counter_values_buffer(), 1);
+    limit.set(i64::MAX);
+    let mut publication = aeron_rs::exclusive_publication::ExclusivePublication::new(
+        client.conductor.clone(),
+        CString::new("aeron:ipc").unwrap(),
+        7,
+        22,
+        11,
+        limit,
+        -1,
+        log.log_buffers.clone(),
+    );
+    let src_mem = AlignedBuffer::with_capacity(len.max(8));
+    let src = AtomicBuffer::from_aligned(&src_mem);
+    let r = catch(|| publication.offer_part(src, 0, len));
+    let p = catch(|| publication.position());
+    let s = format!(
+        "({}, {}, {}, {}, {}, {})",
+        fmt_result(r),
+        fmt_result(p),
+        log.active_term_count(),
+        log.raw_tail(0),
+        log.raw_tail(1),
+        log.raw_tail(2)
+    );
+    publication.close();
+    s
+}
+
 fn main() {
     vcommon::run_lines(|line| {
         let parts: Vec<&str> = line.split_whitespace().collect();
@@ -137,6 +217,8 @@ fn main() {
             "hdr" => case_hdr(&a),
             "rot" => case_rot(&a),
             "pub" => case_pub(&a),
+            "ppos" => case_ppos(&a),
+            "xpub" => case_xpub(&a),
             other => panic!("unknown case kind {}", other),
         }
     });
